@@ -16,7 +16,8 @@ bytes on disk at the crash instant are exactly the bytes written so far; a scena
 io.BufferedWriter does for payloads below its buffer size), so a process dying between a write and the
 close leaves NONE of them in the file -- the two modes bracket what a real interpreter can leave behind.
 
-Scenario kinds: "map" (one parallelise call; option "codec": a user supplied (name_fn, save_fn, load_fn) triple from
+Scenario kinds: "scan_life" (scan.steady_state several times with one Cache object, the directory wiped between),
+"map" (one parallelise call; option "codec": a user supplied (name_fn, save_fn, load_fn) triple from
 CODECS instead of the default pickle functions), "scan_ss"/"scan_tc", and "session": several parallelise calls in ONE
 process with ONE Cache object (per call: the value, the inputs fn was evaluated on, the directory afterwards).
 
@@ -331,7 +332,19 @@ def fn_frame(x):
     return pd.DataFrame({"t": [0.0, 0.5, 1.0], "y": [float(x), x * 0.5, x * 0.25]})
 
 
-FNS = {"sq": fn_sq, "affine": fn_affine, "tup": fn_tup, "dict": fn_dict, "text": fn_text, "frame": fn_frame}
+def fn_maybe(x):
+    """'no result' reported as None (legal: Tout is unconstrained)"""
+    _log_call(x)
+    return None if x % 3 == 0 else x * x
+
+
+def fn_falsy(x):
+    """results that are None / falsy: a cache must store and return them like any other result"""
+    _log_call(x)
+    return [None, 0, "", (), False, 0.0, x][x % 7]
+
+
+FNS = {"maybe": fn_maybe, "falsy": fn_falsy, "sq": fn_sq, "affine": fn_affine, "tup": fn_tup, "dict": fn_dict, "text": fn_text, "frame": fn_frame}
 
 
 # ---------------------------------------------------------------------------------------
@@ -540,9 +553,36 @@ def do_run(sc: dict):
     cache = make_cache(sc)
     if sc["kind"] == "session":
         # several runs in ONE process with ONE Cache object (a notebook session): per run the returned
-        # value, the inputs fn was evaluated on, and the directory afterwards
+        # value, the inputs fn was evaluated on, and the directory afterwards.  A run may be preceded by events
+        # of a working session ("before"): the cache directory wiped, the object pointed at another directory,
+        # a new object constructed, the object copied through pickle (no __init__)
+        import pickle
+        import shutil
+
+        from mxlpy.parallel import Cache
+
+        def dir_of(i: int) -> Path:
+            return Path(sc["cache_dir"]) if i == 0 else Path(f"{sc['cache_dir']}-alt{i}") / "nested"
+
         out = []
+        cur = 0
         for r in sc["runs"]:
+            for act in r.get("before", []):
+                if cache is None:
+                    continue
+                if act[0] == "wipe":
+                    if os.path.isdir(cache.tmp_dir):
+                        shutil.rmtree(cache.tmp_dir)
+                elif act[0] == "retarget":
+                    cur = int(act[1])
+                    cache.tmp_dir = dir_of(cur)
+                elif act[0] == "new":
+                    cur = int(act[1])
+                    cache = Cache(tmp_dir=dir_of(cur))
+                elif act[0] == "copy":
+                    cache = pickle.loads(pickle.dumps(cache))  # noqa: S301
+                else:
+                    raise ValueError(act)
             n0 = len(_read_lines(CALLLOG)) if CALLLOG else 0
             e0 = len(_read_lines(EVLOG)) if EVLOG else 0
             items = [(dec_key(k), x) for k, x in r["items"]]
@@ -562,7 +602,35 @@ def do_run(sc: dict):
                 time.sleep(0.02)
             ent["calls"] = _read_lines(CALLLOG)[n0:] if CALLLOG else []
             ent["events"] = [json.loads(l) for l in _read_lines(EVLOG)[e0:]] if EVLOG else []
-            ent["files"] = _snapshot(sc["cache_dir"])
+            ent["files"] = _snapshot(str(cache.tmp_dir) if cache is not None else sc["cache_dir"])
+            ent["dir"] = cur
+            out.append(ent)
+        return out
+    if sc["kind"] == "scan_life":
+        # scan.steady_state several times in ONE process with ONE Cache object; "wipe" removes the cache directory
+        import shutil
+
+        import pandas as pd
+
+        from mxlpy import scan
+
+        to_scan = pd.DataFrame({c: [float(v) for v in vals] for c, vals in sc["to_scan"].items()})
+        out = []
+        for step in sc["steps"]:
+            if step == "wipe":
+                if cache is not None and os.path.isdir(cache.tmp_dir):
+                    shutil.rmtree(cache.tmp_dir)
+                continue
+            n0 = len(_read_lines(CALLLOG)) if CALLLOG else 0
+            try:
+                r = scan.steady_state(_scan_model(sc), to_scan=to_scan, parallel=bool(sc.get("parallel")), cache=cache, worker=ss_worker)
+                ent = {"status": "returned", "value": {"variables": _frame(r.variables), "fluxes": _frame(r.fluxes)}}
+            except Exception as e:  # noqa: BLE001
+                ent = {"status": "raised", "exc": type(e).__name__, "msg": str(e)[:200]}
+            if sc.get("parallel"):
+                time.sleep(0.02)
+            ent["calls"] = _read_lines(CALLLOG)[n0:] if CALLLOG else []
+            ent["files"] = sorted(_snapshot(sc["cache_dir"]))
             out.append(ent)
         return out
     if sc["kind"] == "map":
